@@ -28,7 +28,7 @@ VARIABLES hist, step, kind, valid, verdict, errorCount, obs, excluded
 tvars == <<l, hist, step, kind, valid, verdict, errorCount, obs, excluded>>
 
 Kinds == {"RenameLocal", "ReorderToplevels", "ReorderMembers", "Parenthesise", "WrapInBlock",
-          "AnnotateLet", "ExplicitTypeArgs", "SplitModule"}
+          "AnnotateLet", "ExplicitTypeArgs", "SplitModule", "AnnotateLambda"}
 
 \* ---- the observable behaviour of one recorded program ----------------------------------------
 NoRun(why) == [ran |-> FALSE, out |-> <<>>, class |-> why, msg |-> ""]
